@@ -392,7 +392,7 @@ def slowLines (length : Int) (cap : Nat) : Nat → Nat → Bytes → Bytes → O
   | f + 1, i, st, acc =>
     if (i : Int) < length then
       let (q, st') := Origin.splitLine st
-      match Origin.walkLine length i q with
+      match Origin.walkLine .fail length i q with
       | .error _ => .error .fail
       | .ok r =>
         if !r.all (· == 32) then .error .fail else
